@@ -306,7 +306,10 @@ def nextEv (s : St) : REv → St × Except String Out
     let items : List Item := s.r.body.items.map fun i => .bytes i.encode
     let h1 := (Hdr.set s.r.headers "Content-Length".toList (Views.CC.natText (totalLen items))).1
     let h2 := if Hdr.contains h1 "etag".toList then h1 else (Hdr.set h1 "ETag".toList ('"' :: etag ++ ['"'])).1
-    ({ s with r := { s.r with body := ⟨.seq, items⟩, headers := h2 },
+    -- as repaired by 41b0631: like `make_sequence`, the close of a consumed iterable is handed
+    -- over to the close callbacks
+    let onClose := s.r.onClose ++ (match s.r.body.kind with | .stream true => [.wrapped] | _ => [])
+    ({ s with r := { s.r with body := ⟨.seq, items⟩, headers := h2, onClose := onClose },
               held := match s.r.body.kind with | .stream _ => detach s.held [] | .seq => s.held }, .ok .unit)
   | .setData b =>
     let h := if s.cfg.autoLength then (Hdr.set s.r.headers "Content-Length".toList (Views.CC.natText b.length)).1
